@@ -298,6 +298,10 @@ impl RuntimeContract {
         pos_table: &mut PosTable,
         labeled_typ: LabeledType,
     ) -> Result<Self, UnboundTypeVariableError> {
+        #[cfg(feature = "verif-hooks")]
+        if crate::verif_hooks::full_static_contracts() {
+            return Self::from_type(pos_table, labeled_typ);
+        }
         Ok(RuntimeContract {
             contract: labeled_typ.typ.contract_static(pos_table)?,
             label: labeled_typ.label,
